@@ -47,6 +47,11 @@ def oracle_vector(case, rec):
     if 'edge' in case:
         kw['phase_edge'] = edge
     lay = case.get('layout', 'C')
+    if case.get('imf'):
+        # a waveform handed over alongside the phase: the property's criteria are about the phase (and the mask) alone
+        w = {'cos': np.cos(p2), 'flat': np.ones_like(p2), 'noise': np.random.default_rng(p2.shape[0]).standard_normal(p2.shape)}[case['imf']]
+        kw['imf'] = w if p.ndim == 2 else w[:, 0]
+        rec.cls('imf=' + case['imf'])
     if mask is not None:
         mask = np.asarray(mask, dtype=bool)
         kw['mask'] = gens.relayout(mask.copy(), lay)
@@ -180,7 +185,8 @@ def mask_case(draw):
     kind = draw(st.sampled_from(['none', 'random', 'block', 'random']))
     # a zero tolerance (no cycle can qualify) and a zero wrap threshold (every change of phase is a wrap) are valid values
     case = {'p': p, 'edge': draw(st.sampled_from(EDGES + [0, 0.0])), 'step': draw(st.sampled_from(STEPS + [0, 0.0])),
-            'layout': draw(st.sampled_from(['C', 'C', 'F', 'strided', 'readonly']))}
+            'layout': draw(st.sampled_from(['C', 'C', 'F', 'strided', 'readonly'])),
+            'imf': draw(st.sampled_from([None, None, 'cos', 'flat', 'noise']))}
     if kind == 'random':
         k = draw(st.integers(0, 2**32 - 1))
         dens = draw(st.sampled_from([0.5, 0.9, 0.98]))
